@@ -43,6 +43,7 @@ type Plan struct {
 	Seed uint64
 	// per-mille rates of background outcomes
 	NullPM, ErrPM, DirPM int
+	PanicPM              int // background rate of panicking resolvers (used by the websocket scenario)
 	MaxList              int
 	Faults               map[string]Kind    // resolver path -> KError | KPanic | KNull
 	DirFaults            map[string]DirKind // field path -> directive behaviour
@@ -82,6 +83,9 @@ func (p *Plan) Resolver(path string, nilable bool) Kind {
 	}
 	if nilable && r < p.ErrPM+p.NullPM {
 		return KNull
+	}
+	if p.PanicPM > 0 && int(h64(p.Seed, "p|"+path)%1000) < p.PanicPM {
+		return KPanic
 	}
 	return KValue
 }
